@@ -19,10 +19,11 @@ Section Spec.
 End Spec.
 
 (* the property, for an implementation given by the list of answers it produces for a history *)
-Definition hashes_reflect_content (now : nat -> nat) (impl : hist -> list (option digest)) : Prop :=
+Definition hashes_reflect_content (now : nat -> nat) (parent : name -> option name)
+           (impl : hist -> list (option digest)) : Prop :=
   forall h : hist,
-    impl h = spec_outputs fsys target digest fop target_exists content_hash (fstep now) fs_empty h.
+    impl h = spec_outputs fsys target digest fop target_exists (content_hash parent) (fstep now parent) fs_empty h.
 
 (* executable version used on the correspondence cases *)
-Definition spec_out (now : nat -> nat) (h : hist) : list (option digest) :=
-  spec_outputs fsys target digest fop target_exists content_hash (fstep now) fs_empty h.
+Definition spec_out (now : nat -> nat) (parent : name -> option name) (h : hist) : list (option digest) :=
+  spec_outputs fsys target digest fop target_exists (content_hash parent) (fstep now parent) fs_empty h.
